@@ -90,6 +90,8 @@ type c01Cfg struct {
 	Comm     int `json:"comm"`
 	Internal int `json:"internal"`
 	NoRule   int `json:"norule"`
+	// respond.verbose of all three services
+	Verbose bool `json:"verbose"`
 }
 
 type c01Case struct {
@@ -99,6 +101,8 @@ type c01Case struct {
 	Hit      bool     `json:"hit"`
 	Upstream int      `json:"upstream"`
 	Style    int      `json:"style"`
+	// value of the request's Accept header (nil = no header)
+	Accept *string `json:"accept"`
 }
 
 // ---------------------------------------------------------------------------------------------------------------
@@ -510,6 +514,7 @@ func c01ServeConf(cfg c01Cfg) *config.Configuration {
 	rc.With.CommunicationError.Code = cfg.Comm
 	rc.With.InternalError.Code = cfg.Internal
 	rc.With.NoRuleError.Code = cfg.NoRule
+	rc.Verbose = cfg.Verbose
 
 	sc := config.ServiceConfig{Host: "127.0.0.1", Respond: rc}
 
@@ -684,14 +689,14 @@ func runPipeline(raw map[string]any) (any, error) {
 
 		script.takeTrace()
 
-		st, _, err := c01HTTP(svc.decisionURL + c01Path(&c))
+		st, _, errBody, err := c01HTTP(svc.decisionURL+c01Path(&c), c.Accept)
 		if err != nil {
 			return nil, err
 		}
 
-		res["decision"] = map[string]any{"status": st, "trace": script.takeTrace()}
+		res["decision"] = map[string]any{"status": st, "errbody": errBody, "trace": script.takeTrace()}
 
-		er, err := c01Envoy(svc, c01Path(&c))
+		er, err := c01Envoy(svc, c01Path(&c), c.Accept)
 		if err != nil {
 			return nil, err
 		}
@@ -718,13 +723,14 @@ func runPipeline(raw map[string]any) (any, error) {
 
 		script.takeTrace()
 
-		st, fromUpstream, err := c01HTTP(svc.proxyURL + c01Path(&c))
+		st, fromUpstream, errBody, err := c01HTTP(svc.proxyURL+c01Path(&c), c.Accept)
 		if err != nil {
 			return nil, err
 		}
 
 		res["proxy"] = map[string]any{
-			"status": st, "hits": c01Hits.Load() - before, "relayed": fromUpstream, "trace": script.takeTrace(),
+			"status": st, "hits": c01Hits.Load() - before, "relayed": fromUpstream, "errbody": errBody,
+			"trace": script.takeTrace(),
 		}
 
 		svc.prxSwitch.set(nil)
@@ -733,39 +739,55 @@ func runPipeline(raw map[string]any) (any, error) {
 	return res, nil
 }
 
-func c01HTTP(url string) (int, bool, error) {
+// c01HTTP sends the request; errBody = the error translator negotiated a body (it marks such responses with
+// X-Content-Type-Options: nosniff; neither the positive decision response nor the upstream test server does; the
+// header is looked at rather than the bytes because net/http drops the body of 204/304 responses).
+func c01HTTP(url string, accept *string) (int, bool, bool, error) {
 	req, err := http.NewRequestWithContext(context.Background(), http.MethodGet, url, nil)
 	if err != nil {
-		return 0, false, err
+		return 0, false, false, err
+	}
+
+	if accept != nil {
+		req.Header.Set("Accept", *accept)
 	}
 
 	resp, err := c01Client.Do(req)
 	if err != nil {
 		// no HTTP response at all (connection dropped): reported as status -1, certainly not a positive answer
-		return -1, false, nil //nolint:nilerr
+		return -1, false, false, nil //nolint:nilerr
 	}
 
 	defer resp.Body.Close()
 
-	buf := make([]byte, 64)
+	buf := make([]byte, 256)
+
 	for {
-		if _, err = resp.Body.Read(buf); err != nil {
+		if _, rerr := resp.Body.Read(buf); rerr != nil {
 			break
 		}
 	}
 
-	return resp.StatusCode, resp.Header.Get("X-C01-Upstream") == "1", nil
+	relayed := resp.Header.Get("X-C01-Upstream") == "1"
+	errBody := !relayed && resp.Header.Get("X-Content-Type-Options") == "nosniff"
+
+	return resp.StatusCode, relayed, errBody, nil
 }
 
-func c01Envoy(svc *c01Services, path string) (map[string]any, error) {
+func c01Envoy(svc *c01Services, path string, accept *string) (map[string]any, error) {
 	ctx, cancel := context.WithTimeout(context.Background(), 20*time.Second)
 	defer cancel()
+
+	var headers map[string]string
+	if accept != nil {
+		headers = map[string]string{"accept": *accept}
+	}
 
 	resp, err := svc.envoy.Check(ctx, &envoy_auth.CheckRequest{
 		Attributes: &envoy_auth.AttributeContext{
 			Request: &envoy_auth.AttributeContext_Request{
 				Http: &envoy_auth.AttributeContext_HttpRequest{
-					Method: http.MethodGet, Path: path, Host: "c01.test", Scheme: "http",
+					Method: http.MethodGet, Path: path, Host: "c01.test", Scheme: "http", Headers: headers,
 				},
 			},
 		},
@@ -785,12 +807,15 @@ func c01Envoy(svc *c01Services, path string) (map[string]any, error) {
 	case resp.GetOkResponse() != nil:
 		out["ok"] = true
 		out["http"] = 0
+		out["body"] = false
 	case resp.GetDeniedResponse() != nil:
 		out["ok"] = false
 		out["http"] = int(resp.GetDeniedResponse().GetStatus().GetCode())
+		out["body"] = len(resp.GetDeniedResponse().GetBody()) != 0
 	default:
 		out["ok"] = false
 		out["http"] = -1
+		out["body"] = false
 	}
 
 	return out, nil
